@@ -21,6 +21,14 @@ package mqttproxy
 //            A scenario family aims session deletes (admin request, or the
 //            broker's own removal of a clean session) at the instant the same
 //            client id reconnects, with other ids filling the table afterwards.
+//            Clients may CONNECT with a last-will message; a Publish pipeline
+//            (topic ACL) lets wills pass, drops them or answers Disconnect, so
+//            that the teardown of a client that went away without DISCONNECT
+//            (close, reset, half-close, takeover) runs through a refused will.
+//
+// A second binary, harness/C17L (check.json "also"), drives the LimitListener
+// directly (no net/http) with limitlistener.go instrumented: several goroutines
+// closing one accepted connection at the same time.
 //
 // Oracle (written from the property statement, not from the code):
 //
@@ -117,6 +125,7 @@ import (
 	egcontext "github.com/megaease/easegress/pkg/context"
 	"github.com/megaease/easegress/pkg/logger"
 	"github.com/megaease/easegress/pkg/object/httpserver"
+	"github.com/megaease/easegress/pkg/protocols/mqttprot"
 	"github.com/megaease/easegress/pkg/supervisor"
 	"github.com/megaease/easegress/pkg/util/limitlistener"
 	"verif/simkit/hdrv"
@@ -153,6 +162,7 @@ type c17MOp struct {
 	Pings   int    `json:"pings"`
 	End     string `json:"end"` // disconnect | half | close | reset | linger | abort-reset
 	AbortUs int64  `json:"abort_us"`
+	Will    string `json:"will"` // "" = no last-will; ok | drop | disc = CONNECT carries a will whose topic tells the Publish pipeline what to answer
 }
 
 type c17MClient struct {
@@ -180,6 +190,7 @@ type c17Scenario struct {
 	MAdmin      []c17MDel    `json:"m_admin"`     // mqtt: session deletes through the admin handler
 	DiscYields  int          `json:"disc_yields"` // mqtt: > 0 = a Disconnect pipeline is configured; its handler passes that many gates ...
 	DiscUs      int64        `json:"disc_us"`     // ... and takes that long
+	PubPipe     bool         `json:"pub_pipe"`    // mqtt: a Publish pipeline is configured; it lets wills on .../ok pass, drops those on .../drop and answers Disconnect to those on .../disc
 }
 
 func c17Gen(rng *sim.Rand, tier string) interface{} {
@@ -276,10 +287,16 @@ func c17GenMQTT(rng *sim.Rand, sc *c17Scenario) {
 		lingerP = 0.45
 	}
 	dur := func() int64 { return int64(rng.Pick(0, 0, 1, 10, 1000, 100000, 1000000)) }
+	// last-will messages, and a Publish pipeline that refuses some of them
+	willP := float64(rng.Pick(0, 0, 30, 70)) / 100
+	sc.PubPipe = willP > 0 && rng.Bool(0.85)
 	for t := 0; t < nt; t++ {
 		var cl c17MClient
 		for k, n := 0, rng.Range(1, 4); k < n; k++ {
 			op := c17MOp{GapUs: dur(), HoldUs: dur(), Pings: rng.Pick(0, 0, 1, 2)}
+			if rng.Bool(willP) {
+				op.Will = rng.PickStr("ok", "drop", "drop", "disc")
+			}
 			if withDel {
 				op.Pings = rng.Pick(0, 1, 2, 3)
 			}
@@ -364,6 +381,14 @@ func c17GenMQTTEvict(rng *sim.Rand, sc *c17Scenario, echo bool) {
 		pre = 0
 	}
 	id := func(i int) string { return fmt.Sprintf("c%d", i) }
+	willP := float64(rng.Pick(0, 0, 0, 50)) / 100
+	sc.PubPipe = willP > 0
+	will := func() string {
+		if rng.Bool(willP) {
+			return rng.PickStr("ok", "drop", "disc")
+		}
+		return ""
+	}
 	// the victim's first connection
 	if echo {
 		sc.MClients = append(sc.MClients, c17MClient{Ops: []c17MOp{{ID: id(0), Clean: true, HoldUs: T + jit(), End: rng.PickStr("disconnect", "disconnect", "close", "half", "reset")}}})
@@ -371,7 +396,7 @@ func c17GenMQTTEvict(rng *sim.Rand, sc *c17Scenario, echo bool) {
 		sc.MClients = append(sc.MClients, c17MClient{Ops: []c17MOp{{GapUs: int64(rng.Pick(0, 0, 1)), ID: id(0), HoldUs: int64(rng.Pick(0, 10, 2000000)), Pings: rng.Pick(0, 0, 1, 2), End: end()}}})
 	}
 	for i := 1; i <= pre; i++ {
-		sc.MClients = append(sc.MClients, c17MClient{Ops: []c17MOp{{GapUs: int64(rng.Pick(0, 0, 1)), ID: id(i), HoldUs: int64(rng.Pick(0, 10, 1000)), Pings: rng.Pick(0, 1, 2), End: end()}}})
+		sc.MClients = append(sc.MClients, c17MClient{Ops: []c17MOp{{GapUs: int64(rng.Pick(0, 0, 1)), ID: id(i), HoldUs: int64(rng.Pick(0, 10, 1000)), Pings: rng.Pick(0, 1, 2), End: end(), Will: will()}}})
 	}
 	// the delete(s)
 	if !echo {
@@ -388,7 +413,7 @@ func c17GenMQTTEvict(rng *sim.Rand, sc *c17Scenario, echo bool) {
 	sc.MClients = append(sc.MClients, back)
 	// fresh ids afterwards
 	for k, n := 0, rng.Range(1, 3); k < n; k++ {
-		sc.MClients = append(sc.MClients, c17MClient{Ops: []c17MOp{{GapUs: T + jit() + int64(rng.Pick(1, 10, 1000, 100000)), ID: id(pre + 1 + k), HoldUs: int64(rng.Pick(0, 10, 1000)), Pings: rng.Pick(0, 1, 2), End: end()}}})
+		sc.MClients = append(sc.MClients, c17MClient{Ops: []c17MOp{{GapUs: T + jit() + int64(rng.Pick(1, 10, 1000, 100000)), ID: id(pre + 1 + k), HoldUs: int64(rng.Pick(0, 10, 1000)), Pings: rng.Pick(0, 1, 2), End: end(), Will: will()}}})
 	}
 }
 
@@ -1162,13 +1187,19 @@ func (m *c17M) quiescent() string {
 	return ""
 }
 
-func c17Connect(id string, clean bool) *packets.ConnectPacket {
+func c17Connect(id string, clean bool, will string) *packets.ConnectPacket {
 	cp := packets.NewControlPacket(packets.Connect).(*packets.ConnectPacket)
 	cp.ProtocolName = "MQTT"
 	cp.ProtocolVersion = 4
 	cp.ClientIdentifier = id
 	cp.CleanSession = clean
 	cp.Keepalive = 0
+	if will == "ok" || will == "drop" || will == "disc" {
+		cp.WillFlag = true
+		cp.WillQos = 0
+		cp.WillTopic = "c17/will/" + will
+		cp.WillMessage = []byte("gone:" + id)
+	}
 	return cp
 }
 
@@ -1216,8 +1247,8 @@ func (m *c17M) connect(n *simnet.Net, op c17MOp, who string) *c17MC {
 	}
 	c.sentSeq = m.next()
 	m.conns = append(m.conns, c)
-	m.note("connect s%d %s clean=%v", c.sid, c.id, op.Clean)
-	if err := c17Connect(op.ID, op.Clean).Write(conn); err != nil {
+	m.note("connect s%d %s clean=%v will=%q", c.sid, c.id, op.Clean, op.Will)
+	if err := c17Connect(op.ID, op.Clean, op.Will).Write(conn); err != nil {
 		c.gone = true
 		c.reapedSeq = m.next()
 		c.state = "failed"
@@ -1351,13 +1382,50 @@ type c17Disc struct {
 	d      time.Duration
 	off    bool
 	ran    bool
+	pub    c17Pub
 }
 
 func (x *c17Disc) GetHandler(name string) (egcontext.Handler, bool) {
-	if name == "c17-disconnect" {
+	switch name {
+	case "c17-disconnect":
 		return x, true
+	case "c17-publish":
+		return &x.pub, true
 	}
 	return nil, false
+}
+
+// c17Pub is the handler of the Publish pipeline: a topic ACL that lets
+// messages on ".../ok" pass, drops those on ".../drop" and answers Disconnect
+// to those on ".../disc". The only publishes of a run are last-will messages.
+type c17Pub struct {
+	x        *c17Disc
+	rejected int
+	passed   int
+}
+
+func (p *c17Pub) Handle(ctx *egcontext.Context) string {
+	req, _ := ctx.GetRequest(egcontext.DefaultNamespace).(*mqttprot.Request)
+	resp, _ := ctx.GetResponse(egcontext.DefaultNamespace).(*mqttprot.Response)
+	if req == nil || resp == nil || req.PublishPacket() == nil {
+		return ""
+	}
+	if !p.x.off {
+		p.x.r.Yield("c17.publish-pipeline")
+	}
+	switch topic := req.PublishPacket().TopicName; {
+	case strings.HasSuffix(topic, "/drop"):
+		resp.SetDrop()
+		p.rejected++
+		p.x.r.Fault("mqtt.will_rejected_by_publish_pipeline")
+	case strings.HasSuffix(topic, "/disc"):
+		resp.SetDisconnect()
+		p.rejected++
+		p.x.r.Fault("mqtt.will_rejected_by_publish_pipeline")
+	default:
+		p.passed++
+	}
+	return ""
 }
 
 func (x *c17Disc) Handle(ctx *egcontext.Context) string {
@@ -1385,8 +1453,12 @@ func c17ExecMQTT(r *sim.Run, sc *c17Scenario) {
 
 	spec := &Spec{Name: "c17", EGName: "c17", Port: 1883, MaxAllowedConnection: sc.Cap}
 	disc := &c17Disc{r: r, yields: sc.DiscYields, d: c17Us(sc.DiscUs)}
+	disc.pub.x = disc
 	if sc.DiscYields > 0 {
-		spec.Rules = []*Rule{{When: &When{PacketType: Disconnect}, Pipeline: "c17-disconnect"}}
+		spec.Rules = append(spec.Rules, &Rule{When: &When{PacketType: Disconnect}, Pipeline: "c17-disconnect"})
+	}
+	if sc.PubPipe {
+		spec.Rules = append(spec.Rules, &Rule{When: &When{PacketType: Publish}, Pipeline: "c17-publish"})
 	}
 	b := newBroker(spec, newStorage(nil), disc, func(string, string) ([]string, error) { return nil, nil })
 	if b == nil {
@@ -1601,6 +1673,12 @@ func c17ExecMQTT(r *sim.Run, sc *c17Scenario) {
 	if disc.ran {
 		r.Probe("mqtt.disconnect_pipeline_ran")
 	}
+	if disc.pub.rejected > 0 {
+		r.Probe("mqtt.will_of_departed_client_rejected")
+	}
+	if disc.pub.passed > 0 {
+		r.Probe("mqtt.will_of_departed_client_published")
+	}
 	if refused {
 		r.Nontrivial()
 	}
@@ -1624,12 +1702,12 @@ func TestVerifC17(t *testing.T) {
 		New:      func() interface{} { return &c17Scenario{} },
 		Exec:     c17Exec,
 		MaxSteps: 60000,
-		Rule: "scenario = kind (LimitListener under net/http | whole HTTPServer runtime | MQTT broker) + drawn cap 1-6 + 2-12 client tasks with drawn connection scripts (requests, idle, hold, close/reset/half-close; MQTT: ids from a pool slightly larger than the cap, takeovers with and without CleanSession, pings, lingering connections, clients leaving before CONNACK, 0-4 session deletes through the admin handler, optional slow Disconnect pipeline; a family aims a session delete at the instant the same id reconnects and lets fresh ids fill the table afterwards; final two-round ping roll call) + 0-4 cap changes (HTTP) + temporary Accept errors (http-ll); " +
+		Rule: "scenario = kind (LimitListener under net/http | whole HTTPServer runtime | MQTT broker) + drawn cap 1-6 + 2-12 client tasks with drawn connection scripts (requests, idle, hold, close/reset/half-close; MQTT: ids from a pool slightly larger than the cap, takeovers with and without CleanSession, pings, lingering connections, clients leaving before CONNACK, last-will messages with a Publish pipeline that passes / drops / disconnects them, 0-4 session deletes through the admin handler, optional slow Disconnect pipeline; a family aims a session delete at the instant the same id reconnects and lets fresh ids fill the table afterwards; final two-round ping roll call) + 0-4 cap changes (HTTP) + temporary Accept errors (http-ll); " +
 			"non-trivial = a client was held back at the cap (HTTP) / a CONNECT was refused with server-unavailable (MQTT); distinct = distinct histories of connect/accept/refuse/close/resize events",
 		Real: []string{"pkg/util/limitlistener (LimitListener, limitListenerConn)", "pkg/util/sem (Semaphore.SetMaxCount)", "golang.org/x/sync/semaphore", "net/http.Server",
 			"pkg/object/httpserver (HTTPServer.Init/Inherit/Close, runtime fsm, reload, startServer, mux)", "pkg/object/mqttproxy (Broker incl. httpDeleteSessionHandler / watchDelete / deleteSession, Client incl. the Disconnect pipeline hook, SessionManager, Session, TopicManager, mock storage with its delete watch)", "paho packets codec"},
 		Stub: []string{"TCP: simnet (listeners, connections, close/reset/half-close, segmentation, latency)", "github.com/megaease/grace (ListenHook hands the runtime a simnet listener)", "quic-go (not used)",
-			"sync/atomic of the instrumented files -> simsync/simatomic (same semantics + gates)", "multi-case selects of mqttproxy polled in a recorded order", "HTTP and MQTT clients (harness)", "MQTT Disconnect pipeline: a handler that only passes gates / lets virtual time pass", "admin API transport: httpDeleteSessionHandler is called with an httptest request"},
+			"sync/atomic of the instrumented files -> simsync/simatomic (same semantics + gates)", "multi-case selects of mqttproxy polled in a recorded order", "HTTP and MQTT clients (harness)", "MQTT Disconnect pipeline: a handler that only passes gates / lets virtual time pass", "MQTT Publish pipeline: a handler that decides by the topic suffix (pass / Drop / Disconnect); the only publishes are last-will messages", "admin API transport: httpDeleteSessionHandler is called with an httptest request"},
 		Assumptions: []string{
 			"a maxConnections change counts as applied from the first quiescent instant after the call at which open connections (+1 for a slot reserved by the waiting Accept) <= new cap; until then only open <= max(caps configured since the last applied one) is asserted",
 			"cap changes are issued by one admin task; server restarts (port / TLS / keep-alive changes) are not generated",
